@@ -157,7 +157,10 @@ def laguerre_der(n, alpha, x):
     # see wiki
     # d^k/dx^k L_n^alpha = (-1)^k L_(n-k)^(alpha+k)
     k = 1
-    return laguerre(n-k, alpha+k, x)
+    if n < k:
+        return np.zeros_like(x)
+
+    return (-1) ** k * laguerre(n-k, alpha+k, x)
 
 
 def laguerre_der_seq(ns, alpha, x):
@@ -181,5 +184,11 @@ def laguerre_der_seq(ns, alpha, x):
 
     """
     k = 1
-    ns = [n-k for n in ns]
-    return laguerre_seq(ns, alpha+k, x)
+    ns = list(ns)
+    # orders below k differentiate to zero; ns is ascending, so they lead the list
+    lower = [n-k for n in ns if n >= k]
+    out = np.zeros((len(ns), *x.shape), dtype=x.dtype)
+    if lower:
+        out[len(ns)-len(lower):] = (-1) ** k * laguerre_seq(lower, alpha+k, x)
+
+    return out
